@@ -189,6 +189,12 @@ def plan(tier, seed):
         pairs(2, 3, 2, 1, 32, stride=8)
         pairs(3, 3, 2, 1, 64, stride=1024)
         bounds = 'ordered pairs DFA(n<=2,k<=2)^2 all d<=2; DFA(n<=3,1)^2 all (465 124) d<=1 (d<=2 when one side has <= 2 states); DFA(3,2)xDFA(2,2) stride 1/8 d<=1; DFA(3,2)^2 stride 1/1024 d<=1'
+    base = list(tasks)
+    sel = lambda name, p: name.endswith('t_pairs') and (p['n1'], p['n2'], p['k']) in ((2, 2, 1), (1, 2, 2), (2, 1, 2)) and not p['logging'] and p['sch2'] == 'r'
+    for kn in ({'dorder': 'aq'}, {'dorder': 'rev'}):
+        tasks += common.knob_copies(base, sel, kn)
+    for sch in ('f', 'u', 'g', 't'):
+        pairs(2, 2, 1, 1, 1, sch2=sch)
     return {'tasks': tasks, 'bounds': {'spaces': bounds, 'step_budget': BUDGET}, 'exhaustive': True,
             'rule': 'ordered pairs of labelled DFAs over the same alphabet (second operand renamed r0.. or with identical names) x both routines x one execution under CPython order + every execution with <= d set-order deviations, loop-iteration budget as termination oracle; non-trivial = equivalent-but-not-isomorphic pairs and isomorphic pairs with unreachable states',
             'assumptions': ['termination = result within {} loop iterations (largest count seen on a terminating run is in maxima)'.format(BUDGET), 'set order = global order per execution (DESIGN 3.4)', 'state names are distinct str objects with equal content (as parsers produce them)', 'small pair spaces also with GambaTools.enable_logging = True and through two live DFA objects rewritten in place', 'wave 5: the counter modulo 1500 (one simple path through all states, longer than the recursion limit) against renamed copies and non-isomorphic siblings; expected answers by construction']}
